@@ -40,6 +40,8 @@ func genC11(t *rapid.T) c11Case {
 		{edit(0, "comment", "mine, before the other one merges"), {Kind: "push", R: 0}, edit(1, "comment", "theirs, concurrent"), {Kind: "pull", R: 1}, {Kind: "push", R: 1}, {Kind: "pull", R: 0}, edit(0, "title", "Crash on start (after their merge)")},
 		// the cache is built from git by the running process (lost or outdated cache files), which then pulls an update and edits
 		{edit(0, "comment", "pushed while the other cache is rebuilt"), {Kind: "push", R: 0}, {Kind: "rebuild", R: 1}, {Kind: "pull", R: 1}, edit(1, "comment", "after rebuild and pull")},
+		// the index directory is lost, the cache files are not
+		{edit(1, "comment", "before the index directory goes"), {Kind: "dropindex", R: 1}, edit(1, "comment", "after it")},
 	}
 	segments[3][0].Edits[0].Add = []string{"bug", "ui"}
 	nSeg := rapid.IntRange(0, 3).Draw(t, "nSegments")
